@@ -20,13 +20,24 @@
   abelian theorems): any number of contracted axis pairs, any ranks — operands contracted
   completely (vector / scalar results, e.g. norms and `<psi|psi>`), rank-0 operands, and
   `mode = fused` with nothing to contract (`mode = auto` is then `blockwise`).
-  NOT covered: S7 (associativity) for fused / auto mode; `tensordot_fuse_commute`.
+  * `tensordotF_modes_agree_weak`, `tensordotF_refines_graded_any_mode_weak`: the same under the
+    WEAK guard of C04c (`AssocP.AdmW` / `tdotAdmissibleCommonB`: matched legs have opposite
+    directions and charge tables that agree on the charges both list).  This is the form that
+    applies INSIDE a chain of contractions, where an operand is the (pruned) result of an earlier
+    contraction — the first step towards S7 in fused / auto mode.
+  * `tdotF_assoc_any_mode_stored`: S7 (associativity, chains and triangles) with ALL FOUR calls in
+    fused / auto mode, in terms of the stored data: success, same labels, charge, symmetry, kind;
+    both results store every sector of the blockwise result with the blockwise values (hence equal
+    to each other), every other stored block is identically zero.
+  NOT covered: S7 for fused / auto mode in the `FreeAddr` form of C04d (see the comment there);
+  `tensordot_fuse_commute`.
 -/
 import SymmModel.Props.C06All2
-import SymmModel.Proofs.TdotFusedAll
+import SymmModel.Proofs.TdotFusedS3
+import SymmModel.Props.C04d
 
 namespace SymmModel.C06
-open SymmModel SymmModel.TdotP SymmModel.GradedP SymmModel.RoutesP
+open SymmModel SymmModel.TdotP SymmModel.GradedP SymmModel.RoutesP SymmModel.AssocP
 open SymmModel.Lazy (sgnI)
 
 variable {R : Type}
@@ -48,8 +59,11 @@ theorem tensordotF_modes_agree_shapes [AddCommMonoid R] [Mul R] [Neg R] [SignRin
           ∧ (∀ K V, alookup rm.blocks K = some V →
               Arr.blockShape? (without a.indices xa ++ without b.indices xb) K = some V.shape)
           ∧ (∀ K V, alookup rm.blocks K = some V → ∀ J, inBox V.shape J = true →
-              rm.elem K J = rb.elem K J)) :=
-  tensordotF_modes_all hz1 hz2 a b xa xb h mode hmode
+              rm.elem K J = rb.elem K J)) := by
+  obtain ⟨he, hk⟩ := tensordotF_modes_all hz1 hz2 a b xa xb h mode hmode
+  refine ⟨he, fun r hr => ?_⟩
+  obtain ⟨rm, rb, h1, h2, f1, f2, f3, f4, f5, hsec, _, _, hshape, hel⟩ := hk r hr
+  exact ⟨rm, rb, h1, h2, f1, f2, f3, f4, f5, hsec, hshape, hel⟩
 
 /-- `OwnBox` of C06c follows from the table box -/
 theorem ownBox_of_tableBox [AddCommMonoid R] [Mul R] [Neg R] [SignRing R]
@@ -230,8 +244,10 @@ theorem tensordotFused_obs_eq_blockwise_all [AddCommMonoid R] [Mul R] [Neg R]
           c.elem K J =
             (tensordotBlockwise a b (freeAxes a.ndim xa) xa xb (freeAxes b.ndim xb)).elem K J)
       ∧ (∀ K V, alookup c.blocks K = some V →
-          Arr.blockShape? (without a.indices xa ++ without b.indices xb) K = some V.shape) :=
-  abOk_all hz1 hz2 a b xa xb ha hb hfa hfb hsym hc hnA hnB hA hB hbl
+          Arr.blockShape? (without a.indices xa ++ without b.indices xb) K = some V.shape) := by
+  obtain ⟨c, h0, h1, h2, h3, h4, h5, h6, h7, h8, h9, _, h10⟩ :=
+    abOk_all hz1 hz2 a b xa xb ha hb hfa hfb hsym hc hnA hnB hA hB hbl
+  exact ⟨c, h0, h1, h2, h3, h4, h5, h6, h7, h8, h9, h10⟩
 
 /-- **tensordotA_modes_agree_all.**  `C06.tensordotA_modes_agree` for every admissible call (any
     groups, aligned blocks or not): with parsed axes `(xa, xb)`, `mode = fused` succeeds with a
@@ -254,7 +270,7 @@ theorem tensordotA_modes_agree_all [AddCommMonoid R] [Mul R] [Neg R]
       ∧ (∀ K V, alookup c.blocks K = some V → ∀ J, inBox V.shape J = true → c.elem K J = bw.elem K J)
       ∧ (∀ K V, alookup c.blocks K = some V →
           Arr.blockShape? (without a.indices xa ++ without b.indices xb) K = some V.shape) := by
-  obtain ⟨c, hcok, hsv, hnd, hshape⟩ := kernelOk_all hz1 hz2 a b xa xb ((ValidP.validB_iff a).mp ha)
+  obtain ⟨c, hcok, hsv, hnd, _, hshape⟩ := kernelOk_all hz1 hz2 a b xa xb ((ValidP.validB_iff a).mp ha)
     ((ValidP.validB_iff b).mp hb) (phases_nil_of_validB ha hfa) (phases_nil_of_validB hb hfb)
     hsym hc hnA hnB hA hB
   refine ⟨c, _, (tensordotA_fused' a b axes xa xb hparse).trans hcok,
@@ -264,6 +280,151 @@ theorem tensordotA_modes_agree_all [AddCommMonoid R] [Mul R] [Neg R]
   intro hxa
   subst hxa
   exact tensordotA_auto_outer a b axes xb hparse
+
+/-! ## the weak guard: inside a chain of contractions -/
+
+/-- **tensordotF_modes_agree_weak.**  `tensordotF_modes_agree_shapes` under the weak guard `AdmW`
+    (an operand may be the pruned result of an earlier contraction, as in `(A·B)·C`). -/
+theorem tensordotF_modes_agree_weak [AddCommMonoid R] [Mul R] [Neg R] [SignRing R]
+    (hz1 : ∀ x : R, 0 * x = 0) (hz2 : ∀ x : R, x * 0 = 0) (a b : Arr R) (xa xb : List Nat)
+    (h : AdmW a b xa xb) (mode : TdotMode) (hmode : mode = .fused ∨ mode = .auto) :
+    (∀ e, OddposP.mergeOddpos a.parity a.oddpos b.oddpos = .error e →
+        a.tensordotF b (.pair (xa.map Int.ofNat) (xb.map Int.ofNat)) mode = .error e
+        ∧ a.tensordotF b (.pair (xa.map Int.ofNat) (xb.map Int.ofNat)) .blockwise = .error e)
+    ∧ (∀ r, OddposP.mergeOddpos a.parity a.oddpos b.oddpos = .ok r →
+        ∃ rm rb, a.tensordotF b (.pair (xa.map Int.ofNat) (xb.map Int.ofNat)) mode = .ok rm
+          ∧ a.tensordotF b (.pair (xa.map Int.ofNat) (xb.map Int.ofNat)) .blockwise = .ok rb
+          ∧ rm.oddpos = rb.oddpos ∧ rm.charge = rb.charge ∧ rm.sym = rb.sym ∧ rm.fermi = rb.fermi
+          ∧ rm.indices.length = rb.indices.length
+          ∧ (∀ s ∈ rb.sectors, s ∈ rm.sectors)
+          ∧ (∀ K V, alookup rm.blocks K = some V →
+              Arr.blockShape? (without a.indices xa ++ without b.indices xb) K = some V.shape)
+          ∧ (∀ K V, alookup rm.blocks K = some V → ∀ J, inBox V.shape J = true →
+              rm.elem K J = rb.elem K J)) := by
+  obtain ⟨he, hk⟩ := tensordotF_modes_all_w hz1 hz2 a b xa xb h mode hmode
+  refine ⟨he, fun r hr => ?_⟩
+  obtain ⟨rm, rb, h1, h2, f1, f2, f3, f4, f5, hsec, _, _, hshape, hel⟩ := hk r hr
+  exact ⟨rm, rb, h1, h2, f1, f2, f3, f4, f5, hsec, hshape, hel⟩
+
+/-- **C03 / C04c refinement for fused / auto mode under the weak guard**: the statement of
+    `C04.tensordotF_refines_graded_common` for `mode = fused / auto`. -/
+theorem tensordotF_refines_graded_any_mode_weak [AddCommMonoid R] [Mul R] [Neg R] [SignRing R]
+    (hz1 : ∀ x : R, 0 * x = 0) (hz2 : ∀ x : R, x * 0 = 0) (a b c : Arr R) (xa xb : List Nat)
+    (ha : a.validB = true) (hb : b.validB = true) (hfa : a.fermi = true) (hfb : b.fermi = true)
+    (hadm : tdotAdmissibleCommonB a b xa xb = true)
+    (mode : TdotMode) (hmode : mode = .fused ∨ mode = .auto)
+    (hm : a.tensordotF b (.pair (xa.map Int.ofNat) (xb.map Int.ofNat)) mode = .ok c) :
+    ∃ out ph, OddposP.mergeOddpos a.parity a.oddpos b.oddpos = .ok (out, ph)
+      ∧ c.oddpos = out
+      ∧ c.charge = a.sym.combine [a.charge, b.charge]
+      ∧ ∀ (s : Sector) (oL oR : List Nat), oL.length = (freeAxes a.ndim xa).length →
+          inBox (Arr.blockShapeD (without a.indices xa ++ without b.indices xb) s) (oL ++ oR) = true →
+          c.elem s (oL ++ oR) = sgnI ph (gradedContract a b xa xb s oL oR) := by
+  have W := AdmW.of ha hb hfa hfb hadm
+  obtain ⟨he, hk⟩ := tensordotF_modes_all_w hz1 hz2 a b xa xb W mode hmode
+  cases hmo : OddposP.mergeOddpos a.parity a.oddpos b.oddpos with
+  | error e => rw [(he e hmo).1] at hm; cases hm
+  | ok r =>
+    obtain ⟨rm', rb, h1, h2, f1, f2, _, _, _, hsec, _, _, hshape, hel⟩ := hk r hmo
+    rw [h1] at hm
+    cases hm
+    obtain ⟨out, ph, g1, g2, g3, g4⟩ :=
+      C04.tensordotF_refines_graded_common a b rb xa xb ha hb hfa hfb hadm h2
+    refine ⟨out, ph, hmo.symm.trans g1, f1.trans g2, f2.trans g3, fun s oL oR hoL ho => ?_⟩
+    rw [elem_everywhere hsec hel s _ (ownBox_of_table hshape s _ ho)]
+    exact g4 s oL oR hoL ho
+
+/-! ## S7 (associativity) with all four calls in fused / auto mode -/
+
+/-
+  FULL statement aimed at (NOT proved in this form): the statement of `C04.tdotF_assoc_labels` with
+  `.blockwise` replaced by `mode` in all four calls and "same value at every `FreeAddr` address".
+  PROVED below, in terms of the STORED data (`tdotF_assoc_any_mode_stored`): all four fused / auto
+  calls succeed; the results `c1m = (A·B)·C`, `c2m = A·(B·C)` have the same labels, charge,
+  symmetry and kind; with `c1b` the blockwise result of route 1 (whose sectors, index tables and
+  values are characterised by `C04.tdotF_assoc_labels`): both `c1m` and `c2m` store every sector of
+  `c1b`, on the box of such a block `c2m = c1m = c1b`, and every other block either of them stores
+  is identically zero (on its own box).  So the two routes agree as tensors.
+  MISSING for the `FreeAddr` form: that for an EXTRA (all-zero) block the box given by the original
+  operands' tables is the block's own box (geometry lemmas `Assoc2P.idxL / idxR` for a
+  `TdotP.InterW` intermediate instead of `AssocP.Inter`).
+-/
+
+/-- **tdotF_assoc_any_mode_stored.** -/
+theorem tdotF_assoc_any_mode_stored [AddCommMonoid R] [Mul R] [Neg R] [SignRing R] [AssocLaws R]
+    (hz1 : ∀ x : R, 0 * x = 0) (hz2 : ∀ x : R, x * 0 = 0)
+    (A B C : Arr R) (xa1 xa3 xb1 xb2 xc2 xc3 : List Nat)
+    (hA : A.validB = true) (hB : B.validB = true) (hC : C.validB = true)
+    (hfA : A.fermi = true) (hfB : B.fermi = true) (hfC : C.fermi = true)
+    (h1 : ValidP.tdotAdmissibleB A B xa1 xb1 = true) (h2 : ValidP.tdotAdmissibleB B C xb2 xc2 = true)
+    (h3 : ValidP.contractibleB A C xa3 xc3 = true)
+    (hnA : (xa1 ++ xa3).Nodup) (hnB : (xb1 ++ xb2).Nodup) (hnC : (xc2 ++ xc3).Nodup)
+    (hltA : ∀ i ∈ xa3, i < A.ndim) (hltC : ∀ i ∈ xc3, i < C.ndim)
+    (hL : Assoc2P.LabelRoutes A.parity B.parity A.oddpos B.oddpos C.oddpos)
+    (mode : TdotMode) (hmode : mode = .fused ∨ mode = .auto) :
+    ∃ ABm BCm c1m c2m ABb c1b : Arr R,
+      A.tensordotF B (.pair (xa1.map Int.ofNat) (xb1.map Int.ofNat)) mode = .ok ABm
+      ∧ ABm.tensordotF C (.pair ((Assoc2P.axesAB A.ndim B.ndim xa1 xa3 xb1 xb2).map Int.ofNat)
+          ((xc3 ++ xc2).map Int.ofNat)) mode = .ok c1m
+      ∧ B.tensordotF C (.pair (xb2.map Int.ofNat) (xc2.map Int.ofNat)) mode = .ok BCm
+      ∧ A.tensordotF BCm (.pair ((xa1 ++ xa3).map Int.ofNat)
+          ((Assoc2P.axesBC B.ndim C.ndim xb1 xb2 xc2 xc3).map Int.ofNat)) mode = .ok c2m
+      ∧ A.tensordotF B (.pair (xa1.map Int.ofNat) (xb1.map Int.ofNat)) .blockwise = .ok ABb
+      ∧ ABb.tensordotF C (.pair ((Assoc2P.axesAB A.ndim B.ndim xa1 xa3 xb1 xb2).map Int.ofNat)
+          ((xc3 ++ xc2).map Int.ofNat)) .blockwise = .ok c1b
+      ∧ c2m.oddpos = c1m.oddpos ∧ c2m.charge = c1m.charge ∧ c2m.sym = c1m.sym ∧ c2m.fermi = c1m.fermi
+      ∧ c1m.oddpos = c1b.oddpos ∧ c1m.charge = c1b.charge
+      ∧ (∀ s ∈ c1b.sectors, s ∈ c1m.sectors ∧ s ∈ c2m.sectors)
+      ∧ (∀ s ∈ c1b.sectors, ∀ o, inBox (Arr.blockShapeD c1b.indices s) o = true →
+          c2m.elem s o = c1m.elem s o ∧ c1m.elem s o = c1b.elem s o)
+      ∧ (∀ s, s ∉ c1b.sectors → ∀ o, OwnBox c1m s o → c1m.elem s o = 0)
+      ∧ (∀ s, s ∉ c1b.sectors → ∀ o, OwnBox c2m s o → c2m.elem s o = 0) := by
+  obtain ⟨ABb, BCb, c1b, c2b, d1, d2, d3, d4, r1, r2, r3, r4, _⟩ :=
+    C04.tdotF_assoc_labels A B C xa1 xa3 xb1 xb2 xc2 xc3 hA hB hC hfA hfB hfC h1 h2 h3 hnA hnB hnC
+      hltA hltC hL
+  obtain ⟨_, _, hidx, hsecb, hat, _⟩ := C04.tdotF_assoc_at A B C ABb BCb c1b c2b xa1 xa3 xb1 xb2 xc2 xc3
+    hA hB hC hfA hfB hfC h1 h2 h3 hnA hnB hnC hltA hltC hL d1 d2 d3 d4
+  have hAB := Adm.of hA hB hfA hfB h1
+  have hBC := Adm.of hB hC hfB hfC h2
+  have T : Assoc2P.Tri A B C xa1 xa3 xb1 xb2 xc2 xc3 :=
+    ⟨hAB, hBC,
+      Mid.of hnA (by
+        intro i hi
+        rcases List.mem_append.mp hi with h | h
+        · exact hAB.ltA i h
+        · exact hltA i h),
+      Mid.of hnB (by
+        intro i hi
+        rcases List.mem_append.mp hi with h | h
+        · exact hAB.ltB i h
+        · exact hBC.ltA i h),
+      Mid.of hnC (by
+        intro i hi
+        rcases List.mem_append.mp hi with h | h
+        · exact hBC.ltB i h
+        · exact hltC i h), h3⟩
+  obtain ⟨ABm, e1⟩ := call_exists hz1 hz2 A B xa1 xb1 hAB mode hmode ABb d1
+  obtain ⟨BCm, e3⟩ := call_exists hz1 hz2 B C xb2 xc2 hBC mode hmode BCb d3
+  obtain ⟨ABb', d1', pAB, IABm, IABb, oAB, cAB, _, _, _⟩ :=
+    first_call hz1 hz2 A B xa1 xb1 hA hB hfA hfB h1 mode hmode ABm e1
+  rw [d1] at d1'
+  obtain rfl := Except.ok.inj d1'
+  obtain ⟨BCb', d3', pBC, IBCm, IBCb, oBC, cBC, _, _, _⟩ :=
+    first_call hz1 hz2 B C xb2 xc2 hB hC hfB hfC h2 mode hmode BCm e3
+  rw [d3] at d3'
+  obtain rfl := Except.ok.inj d3'
+  obtain ⟨c1m, e2, l1, l2, l3, l4, _, lsec, lst, lz⟩ := second_left hz1 hz2 pAB (admW_left_tri IABm T)
+    (admW_left_tri IABb T) oAB cAB mode hmode c1b d2
+  obtain ⟨c2m, e4, m1, m2, m3, m4, _, msec, mst, mz⟩ := second_right hz1 hz2 pBC (admW_right_tri IBCm T)
+    (admW_right_tri IBCb T) oBC cBC mode hmode c2b d4
+  refine ⟨ABm, BCm, c1m, c2m, ABb, c1b, e1, e2, e3, e4, d1, d2,
+    by rw [m1, l1, r1], by rw [m2, l2, r2], by rw [m3, l3, r3], by rw [m4, l4, r4], l1, l2,
+    fun s hs => ⟨lsec s hs, msec s ((hsecb s).mpr hs)⟩, ?_, lz,
+    fun s hs o ho => mz s (fun h => hs ((hsecb s).mp h)) o ho⟩
+  intro s hs o ho
+  have h1' := lst s hs o ho
+  have h2' := mst s ((hsecb s).mpr hs) o (by rw [hidx]; exact ho)
+  exact ⟨by rw [h2', h1']; exact hat s o (fun _ => ho), h1'⟩
 
 /-! ### non-vacuity and sanity -/
 
@@ -312,5 +473,46 @@ example : exV.validB = true ∧ ValidP.contractibleB exA exV [1, 2] [0, 1] = tru
        | .error _ => [])
       = (tensordotBlockwise exV exA [] [0, 1] [1, 2] [0]).blocks.map (fun p => (p.1, p.2.shape, p.2.data))
     ∧ (tensordotBlockwise exA exV [0] [1, 2] [0, 1] []).blocks.length = 1 := by decide +kernel
+
+-- the weak guard inside a chain (C04c's example): `B·C` has pruned tables, `(A, B·C)` is not
+-- `contractibleB` but satisfies the weak guard; auto = fused = blockwise on it, and the two routes
+-- of the chain agree when ALL four calls run in `mode = auto`
+open SymmModel.C03 SymmModel.C04 in
+example : AdmW gA exBC [2] [0] ∧ ValidP.contractibleB gA exBC [2] [0] = false :=
+  ⟨AdmW.of (by decide +kernel) (by decide +kernel) rfl (by decide +kernel) (by decide +kernel),
+   by decide +kernel⟩
+
+open SymmModel.C03 SymmModel.C04 in
+example :
+    (match gA.tensordotF exBC (.pair [2] [0]) .auto, gA.tensordotF exBC (.pair [2] [0]) .fused,
+           gA.tensordotF exBC (.pair [2] [0]) .blockwise with
+     | .ok c, .ok c', .ok d =>
+         c.oddpos == d.oddpos && d.blocks.all (fun p =>
+           (alookup c.blocks p.1).map (·.data) == some p.2.data
+           && (alookup c'.blocks p.1).map (·.data) == some p.2.data
+           && alookup c.phases p.1 == alookup d.phases p.1)
+     | _, _, _ => false) = true := by decide +kernel
+
+open SymmModel.C03 SymmModel.C04 in
+example :
+    (match (resOf (gA.tensordotF cB (.pair [2] [0]) .auto)).tensordotF cC (.pair [3] [0]) .auto,
+           gA.tensordotF (resOf (cB.tensordotF cC (.pair [2] [0]) .auto)) (.pair [2] [0]) .auto with
+     | .ok c1, .ok c2 =>
+         c1.oddpos == c2.oddpos && c1.charge == c2.charge
+         && c1.elem [(0,0),(1,0),(0,0),(0,0)] [1,1,0,0] == c2.elem [(0,0),(1,0),(0,0),(0,0)] [1,1,0,0]
+         && c1.elem [(1,0),(0,0),(0,0),(0,0)] [0,0,0,0] == c2.elem [(1,0),(0,0),(0,0),(0,0)] [0,0,0,0]
+         && c1.elem [(0,0),(1,0),(0,0),(0,0)] [1,1,0,0] != 0
+     | _, _ => false) = true := by decide +kernel
+
+-- the hypotheses of `tdotF_assoc_any_mode_stored` hold for C04c's odd chain `gA – cB – cC`
+open SymmModel.C03 SymmModel.C04 in
+example : gA.validB = true ∧ cB.validB = true ∧ cC.validB = true
+    ∧ ValidP.tdotAdmissibleB gA cB [2] [0] = true ∧ ValidP.tdotAdmissibleB cB cC [2] [0] = true
+    ∧ ValidP.contractibleB gA cC [] [] = true
+    ∧ ([2] ++ [] : List Nat).Nodup ∧ ([0] ++ [2] : List Nat).Nodup ∧ ([0] ++ [] : List Nat).Nodup
+    ∧ Assoc2P.LabelRoutes gA.parity cB.parity gA.oddpos cB.oddpos cC.oddpos :=
+  ⟨by decide +kernel, by decide +kernel, by decide +kernel, by decide +kernel, by decide +kernel,
+   by decide +kernel, by decide, by decide, by decide,
+   C04.labelRoutes_of_distinct _ _ _ _ _ (by decide +kernel)⟩
 
 end SymmModel.C06
